@@ -123,6 +123,31 @@ def strip_axioms(s):
     return [z3.Length(r) <= z3.Length(s), z3.Contains(s, r)]
 
 
+def _arith_only(c) -> bool:
+    """True if the only sequence operation in c is str.len (treated as an
+    opaque integer term)"""
+    todo = [c]
+    seen = set()
+    while todo:
+        t = todo.pop()
+        if t.get_id() in seen:
+            continue
+        seen.add(t.get_id())
+        if z3.is_quantifier(t):
+            return False
+        if z3.is_app(t):
+            k = t.decl().kind()
+            if k == z3.Z3_OP_SEQ_LENGTH:
+                continue
+            srt = t.sort()
+            if srt.kind() in (z3.Z3_SEQ_SORT, z3.Z3_RE_SORT, z3.Z3_ARRAY_SORT):
+                return False
+            if k in (z3.Z3_OP_SEQ_IN_RE, z3.Z3_OP_SEQ_CONTAINS, z3.Z3_OP_SEQ_PREFIX, z3.Z3_OP_SEQ_SUFFIX):
+                return False
+            todo.extend(t.children())
+    return True
+
+
 # ---------------------------------------------------------------- discharge
 
 _VALID_CACHE: set = set()
@@ -167,7 +192,7 @@ def _z3str_to_py(v) -> str:
     return _re.sub(r"\\u\{([0-9a-fA-F]+)\}", lambda m: chr(int(m.group(1), 16)), s)
 
 
-def discharge(pc: list, goal, timeout_ms: int = 20000, want_model=True) -> Verdict:
+def discharge(pc: list, goal, timeout_ms: int = 20000, want_model=True, watch=None, hints=None) -> Verdict:
     """prove  (and pc) => goal.  Fresh solver; sat models are validated."""
     t0 = time.time()
     g1 = z3.simplify(goal)
@@ -184,6 +209,46 @@ def discharge(pc: list, goal, timeout_ms: int = 20000, want_model=True) -> Verdi
             if key is not None:
                 _VALID_CACHE.add(key)
             return Verdict("proved", "z3-5.1", time.time() - t0, note="goal valid without path condition")
+    if hints and hints[0] == "length-abstraction":
+        # obligations of the form  len(s) <= N : decided on the arithmetic
+        # skeleton of the path condition (string/regex conjuncts dropped, which
+        # only weakens the hypothesis: a proof is still a proof; a model is a
+        # candidate that the replay has to confirm)
+        sa = z3.Solver()
+        sa.set("timeout", min(10000, timeout_ms))
+        kept = [c for c in pc if _arith_only(c)] + [z3.Not(goal)]
+        # str.len(t) -> fresh non-negative integer per distinct t
+        subst = {}
+        for c in kept:
+            todo = [c]
+            while todo:
+                t = todo.pop()
+                if z3.is_app(t):
+                    if t.decl().kind() == z3.Z3_OP_SEQ_LENGTH:
+                        if t.get_id() not in subst:
+                            subst[t.get_id()] = (t, z3.Int(f"len_abs!{len(subst)}"))
+                    else:
+                        todo.extend(t.children())
+        pairs = list(subst.values())
+        for c in kept:
+            sa.add(z3.substitute(c, *pairs) if pairs else c)
+        for _, v in pairs:
+            sa.add(v >= 0)
+        r = sa.check()
+        if r == z3.unsat:
+            return Verdict("proved", "z3-5.1", time.time() - t0, note="on the arithmetic skeleton of the path condition")
+        if r == z3.sat:
+            m = sa.model()
+            md = {}
+            for wn, wt in (watch or {}).items():
+                try:
+                    wv = m.eval(wt, model_completion=True)
+                    md["@" + wn] = {"py": _z3str_to_py(wv)[:80]} if z3.is_string_value(wv) else {"term": str(wv)[:200]}
+                except Exception:
+                    pass
+            return Verdict("refuted", "z3-5.1", time.time() - t0, md,
+                           note="no length bound on the operand in the path condition (length abstraction; replay decides)")
+        return Verdict("unknown", "z3-5.1", time.time() - t0, note="length abstraction undecided")
     s = z3.Solver()
     s.set("timeout", timeout_ms)
     for c in pc:
@@ -208,7 +273,14 @@ def discharge(pc: list, goal, timeout_ms: int = 20000, want_model=True) -> Verdi
         except z3.Z3Exception:
             ok = False
         if ok:
-            return Verdict("refuted", "z3-5.1", time.time() - t0, _model_dict(m))
+            md = _model_dict(m)
+            for wn, wt in (watch or {}).items():
+                try:
+                    wv = m.eval(wt, model_completion=True)
+                    md["@" + wn] = {"py": _z3str_to_py(wv)} if z3.is_string_value(wv) else {"term": str(wv)[:200]}
+                except Exception:
+                    pass
+            return Verdict("refuted", "z3-5.1", time.time() - t0, md)
         # unvalidated model: try the other back ends before giving up
         v2 = _cli_fallback(s, timeout_ms)
         if v2 is not None and v2.status == "proved":
